@@ -250,6 +250,7 @@ func runC11(c *Ctx) {
 
 	// ---------- C11.c ----------
 	clauseCacheReleaseDiscipline(c, "C11.c")
+	clausePrivateCaches(c, "C11.h")
 	clauseKeyInjective(c, "C11.f", [][2]string{{"fs/reader", "genID"}, {"fs/remote", "(*httpFetcher).genID"}})
 	clauseIncDiscipline(c, "C11.g")
 
@@ -420,6 +421,8 @@ func runC12(c *Ctx) {
 
 	// ---------- C12.a ----------
 	clauseTTLOwnership(c, "C12.a")
+	clauseFinalizeWithRemoval(c, "C12.n")
+	clausePrivateCaches(c, "C12.m")
 
 	clauseMountRegistrationRolledBack(c, "C12.g")
 	clauseCommitNoEffectWhenClosed(c, "C12.h")
